@@ -376,14 +376,14 @@ def run(repo, check):
     check.run_rule(rule_r3, repo)
     check.run_rule(rule_r10, repo)
     check.run_rule(rule_r4, repo)
-    r5 = c02.rule_r1(repo, check.tier)
+    r5 = check.call(c02.rule_r1, repo, check.tier)
     r5.rule = 'C05.R5'
     r5.title = 'codec symmetry of the compressed primitives (shared with C02.R1)'
     r5.findings = [f for f in r5.findings if 'compressed' in f.key and 'uncompressed' not in f.key]
     for f in r5.findings:
         f.rule = 'C05.R5'
     check.add(r5)
-    r6 = c02.rule_r3(repo)
+    r6 = check.call(c02.rule_r3, repo)
     r6.rule = 'C05.R6'
     r6.title = 'missing difference = all ones of the difference width (shared with C02.R3)'
     r6.findings = [f for f in r6.findings if 'compressed' in f.key and 'uncompressed' not in f.key]
@@ -394,7 +394,7 @@ def run(repo, check):
     check.run_rule(rule_state_mode, repo, 'C05.R8')
     check.run_rule(rule_pipeline_compressed, repo)
     from sa.rules import c01
-    r9 = c01.rule_r7(repo)
+    r9 = check.call(c01.rule_r7, repo)
     r9.rule = 'C05.R9'
     r9.title = 'missing rules at the compressed decode sites equal the uncompressed ones (shared with C01.R7)'
     r9.findings = [f for f in r9.findings if 'compressed' in f.key and 'uncompressed' not in f.key]
